@@ -198,6 +198,28 @@ def non_normal(v):
     return None
 
 
+def deep_non_normal(root) -> bool:
+    """Does any union nested anywhere inside `root` fail to be in unite_values' normal form?"""
+    seen = set()
+
+    def walk(obj, depth):
+        if depth > 40 or id(obj) in seen:
+            return False
+        seen.add(id(obj))
+        if isinstance(obj, MultiValuedValue) and non_normal(obj) is not None:
+            return True
+        fs = _fields(obj)
+        if fs is not None:
+            return any(walk(c, depth + 1) for _, c in fs)
+        if isinstance(obj, (tuple, list)):
+            return any(walk(c, depth + 1) for c in obj)
+        if isinstance(obj, dict):
+            return any(walk(c, depth + 1) for c in obj.values())
+        return False
+
+    return walk(root, 0)
+
+
 def _annotated_union(v) -> bool:
     return isinstance(v, AnnotatedValue) and isinstance(v.value, MultiValuedValue)
 
@@ -488,6 +510,10 @@ def laws_unary(a, spec, maps, rec, st) -> None:
         st.histo("twin_not_equal", type(a).__name__)
     # substitution
     tvs = vg.spec_typevars(spec)
+    # substitution rebuilds nested values, so for subst(a, m) == a every union *inside* a must be normal too
+    subst_id_ok = normal and not deep_non_normal(a)
+    if normal and not subst_id_ok:
+        st.count("operand_nested_union_not_in_normal_form")
     for mspec, m in maps:
         st.count("law_evaluations", 2)
         try:
@@ -496,7 +522,7 @@ def laws_unary(a, spec, maps, rec, st) -> None:
             rec("subst-raises", f"{type(e).__name__} in {type(a).__name__}", f"subst({a}, {m}) raised {e!r}", mspec)
             continue
         dom = {name for name in mspec}
-        if not (tvs & dom) and normal:
+        if not (tvs & dom) and subst_id_ok:
             st.count("subst_identity_checked")
             if not eqm(r, a):
                 rec("subst-identity", diff_reason(r, a, neq_bad), f"subst({a!r}, m) = {r!r} although no variable of m occurs", mspec)
@@ -1024,7 +1050,7 @@ def shard(ctx) -> None:
 
     # ---- random deeper cases
     rng = ctx.rng
-    n_random = ctx.pick(1300, 6500)
+    n_random = ctx.pick(20800, 104000) // ctx.nshards  # total work does not depend on --jobs
     ops = None
     for t in range(n_random):
         depth = rng.choice([1, 2, 2, 3])
